@@ -165,11 +165,8 @@ structure Stream where
   inset : RS := []
   inclosed : SV := .unset
   inresetcode : Int := -1
-  inbuf : List Nat := []       -- contents of s.inbuf (a snapshot of the aliased head chunk)
+  inbuf : List Nat := []       -- contents of s.inbuf (aliases the head chunk of `inp`; dropped before `inp` releases it)
   inbufoff : Nat := 0
-  /-- `CloseRead` / `handleReset` released the pipe while bytes were still parked in `inbuf`:
-  the chunk `inbuf` aliases may have gone back to `pipebufPool` (its contents are then arbitrary). -/
-  inbufStale : Bool := false
   -- send side
   out : Pipe.Pipe := Pipe.empty
   outflushed : Int := 0
@@ -208,7 +205,6 @@ def pipeWrite (p : Pipe.Pipe) (b : List Nat) (off : Int) : Pipe.Pipe × Bool := 
 
 inductive ReadRes where
   | data (b : List Nat) (eof : Bool)
-  | stale (n : Nat)        -- fast-path read of `n` bytes out of a released chunk
   | eof
   | errReset | errClosed | errWriteOnly | blocked | panic
 deriving Repr, DecidableEq
@@ -219,12 +215,11 @@ def read (c : Conn) (s : Stream) (n : Nat) : Conn × Stream × ReadRes :=
   if s.inbuf.length > s.inbufoff then
     -- fast path
     let k := min n (s.inbuf.length - s.inbufoff)
-    (c, { s with inbufoff := s.inbufoff + k },
-      if s.inbufStale then .stale k else .data ((s.inbuf.drop s.inbufoff).take k) false)
+    (c, { s with inbufoff := s.inbufoff + k }, .data ((s.inbuf.drop s.inbufoff).take k) false)
   else
   if !s.canRead then (c, s, .blocked) else
   let s := if s.inbufoff > 0 then
-      { s with inp := Pipe.discardBefore s.inp (s.inp.start + s.inbufoff), inbufoff := 0, inbuf := [], inbufStale := false }
+      { s with inp := Pipe.discardBefore s.inp (s.inp.start + s.inbufoff), inbufoff := 0, inbuf := [] }
     else s
   if s.inresetcode ≠ -1 then (c, s, .errReset) else
   if s.inclosed.isSet then (c, s, .errClosed) else
@@ -292,9 +287,10 @@ def handleReset (c : Conn) (s : Stream) (code finalSize : Int) : Conn × Stream 
       ({ c with usedLimit := r.2 }, r.1)
     else (c, 0)
   if err ≠ 0 then (c, s, err) else
-  let c := c.bytesReadOnLoop (finalSize - s.inp.start)
-  let s := { s with inp := Pipe.discardBefore s.inp s.inp.stop, inresetcode := code, insize := finalSize,
-                    inbufStale := s.inbufStale || decide (s.inbuf.length > s.inbufoff) }
+  -- bytes parked in the fast-path buffer were already credited by `Read`; `discardInbufLocked` drops them
+  let c := c.bytesReadOnLoop (finalSize - s.inp.start - s.inbuf.length)
+  let s := { s with inbuf := [], inbufoff := 0 }
+  let s := { s with inp := Pipe.discardBefore s.inp s.inp.stop, inresetcode := code, insize := finalSize }
   (c, s, 0)
 
 /-- `Stream.CloseRead`. -/
@@ -302,9 +298,9 @@ def closeRead (c : Conn) (s : Stream) : Conn × Stream :=
   if s.writeOnly then (c, s) else
   let s := if Rangeset.isrange s.inset 0 s.insize ∨ s.inresetcode ≠ -1
     then { s with inclosed := .received } else { s with inclosed := s.inclosed.set }
-  let discarded := s.inp.stop - s.inp.start
-  let s := { s with inp := Pipe.discardBefore s.inp s.inp.stop,
-                    inbufStale := s.inbufStale || decide (s.inbuf.length > s.inbufoff) }
+  let discarded := s.inp.stop - s.inp.start - s.inbuf.length   -- `discardInbufLocked` (already credited)
+  let s := { s with inbuf := [], inbufoff := 0 }
+  let s := { s with inp := Pipe.discardBefore s.inp s.inp.stop }
   (c.bytesReadOffLoop discarded, s)
 
 /-- `appendInFramesLocked`: STOP_SENDING and MAX_STREAM_DATA. -/
